@@ -1,5 +1,6 @@
 #define _GNU_SOURCE
 #include "vkit.h"
+#include "ref.h"
 #include <stdarg.h>
 #include <stdlib.h>
 #include <signal.h>
@@ -364,6 +365,7 @@ uint64_t vk_vcall_n(void *fn, const char *name, int nargs, ...)
 	e->nstack = nargs > 6 ? nargs - 6 : 0;
 	vk_cur_fn = name;
 	vk_ncalls++;
+	vk_distinct("functions_called", vk_hash(name, strlen(name), 77));
 	vcall(fn, e);
 	if (vk_abi_enabled) vk_abi_check(NULL);
 	return e->ret;
@@ -437,3 +439,61 @@ const char *vk_sym_at(uintptr_t a, uintptr_t *off)
 	if (off) *off = bo;
 	return best;
 }
+
+/* ---------- secrets (C14) ---------- */
+#define MAXSEC 160
+static struct { uint8_t b[16]; char name[24]; } secs[MAXSEC];
+static int nsecs;
+void vk_sec_reset(void) { nsecs = 0; }
+void vk_sec_add(const uint8_t *p, const char *name, int idx)
+{
+	static const uint8_t z[16];
+	if (nsecs == MAXSEC || !memcmp(p, z, 16)) return;
+	/* low-entropy strings (e.g. all-equal bytes) could match poison: skip */
+	int same = 1; for (int i = 1; i < 16; i++) if (p[i] != p[0]) same = 0;
+	if (same) return;
+	memcpy(secs[nsecs].b, p, 16);
+	snprintf(secs[nsecs].name, sizeof secs[nsecs].name, "%s%d", name, idx);
+	nsecs++;
+}
+void vk_sec_add_key(const uint8_t *key, int keybits)
+{
+	ref_aes_key k; uint8_t dk[15][16];
+	ref_aes_expand(&k, key, keybits);
+	ref_aes_dec_schedule(&k, dk);
+	vk_sec_add(key, "rawkey", 0);
+	if (keybits == 256) vk_sec_add(key + 16, "rawkey", 1);
+	for (int r = 0; r <= k.nr; r++) { vk_sec_add(k.rk[r], "enc_rk", r); if (r && r < k.nr) vk_sec_add(dk[r], "dec_rk", r); }
+}
+void vk_sec_scan(const char *fn, const char *shape)
+{
+	if (!nsecs) return;
+	static uint8_t filt[65536 / 8];
+	memset(filt, 0, sizeof filt);
+	for (int i = 0; i < nsecs; i++) { unsigned h = secs[i].b[0] | secs[i].b[1] << 8; filt[h >> 3] |= 1 << (h & 7); }
+	vk_stat("secret_scans", 1);
+	for (int pass = 0; pass < 2; pass++) {
+		const uint8_t *p = pass ? vk_env.stack_cap : &vk_env.zmm[0][0];
+		size_t n = pass ? VC_DEAD : (vk_have_avx512 ? 32 * 64 : 16 * 64);
+		if (!p) continue;
+		/* the top 8 bytes of the dead stack held the return address */
+		for (size_t o = 0; o + 16 <= n; o++) {
+			unsigned h = p[o] | p[o + 1] << 8;
+			if (!(filt[h >> 3] & (1 << (h & 7)))) continue;
+			for (int i = 0; i < nsecs; i++) if (!memcmp(p + o, secs[i].b, 16)) {
+				char key[200], where[64];
+				if (pass) snprintf(where, sizeof where, "stack");
+				else snprintf(where, sizeof where, "zmm%zu", o / 64);
+				/* key: function + kind of secret + register/stack (stable across shapes) */
+				char kind[24]; snprintf(kind, sizeof kind, "%s", secs[i].name);
+				for (char *c = kind; *c; c++) if (*c >= '0' && *c <= '9') { *c = 0; break; }
+				snprintf(key, sizeof key, "%s:%s:%s", fn, kind, pass ? "stack" : "vecreg");
+				vk_violation("C14", key, NULL, "%s leaves %s in %s (offset %zu%s) shape %s", fn, secs[i].name, where,
+					     pass ? VC_DEAD - o : o % 64, pass ? " bytes below the call's rsp" : "", shape);
+				o += 15;
+				break;
+			}
+		}
+	}
+}
+
